@@ -1,6 +1,6 @@
 import NasimModel.Model.Env
 /-!
-# The dynamics properties C01–C08 as decidable predicates on one observed transition
+# The dynamics properties C01–C09 as decidable predicates on one observed transition
 
 Each property of `properties.jsonl` that speaks about a single step is written here once, as a
 Boolean function of a *transition record* `Trans` — pre-state, action, draw, and everything the
@@ -158,8 +158,32 @@ def predC08 (sc : Scenario) (t : Trans) : Bool :=
   t.obsF == observe sc.layout t.s' t.a t.res true
   && t.obsP == observe sc.layout t.s' t.a t.res false
 
+/-- every combination of the ten keyword switches of `HostVector.observe` -/
+def allMasks : List Mask :=
+  let B := [false, true]
+  B.flatMap fun a => B.flatMap fun b => B.flatMap fun c => B.flatMap fun d => B.flatMap fun e =>
+  B.flatMap fun f => B.flatMap fun g => B.flatMap fun h => B.flatMap fun i => B.map fun j =>
+    { address := a, comp := b, reach := c, disc := d, access := e, value := f, dvalue := g,
+      svc := h, proc := i, os := j }
+
+/-- an observed row is the documented encoding of *some* masked view of the true row: every
+documented group of columns shows either its true content, at its documented position, or zeros -/
+def rowConforms (L : Layout) (r : Row) (v : List Int) : Bool :=
+  allMasks.any fun m => observeRow L r m == v
+
+/-- C09 (step part) — both observation tensors are laid out as documented: one row per host in
+state order, each a masked view of that host's row in the documented layout, followed by the
+auxiliary row (four result flags, then zeros) -/
+def predC09 (sc : Scenario) (t : Trans) : Bool :=
+  let L := sc.layout
+  let ok (obs : List (List Int)) : Bool :=
+    obs.length == t.s'.length + 1
+    && (t.s'.zip obs).all (fun p => rowConforms L p.1 p.2)
+    && obs.getLast? == some (auxRow L.stateSize t.res)
+  ok t.obsF && ok t.obsP
+
 def predAll (sc : Scenario) (t : Trans) : List Bool :=
   [predC01 sc t, predC02 sc t, predC03 sc t, predC04 sc t, predC05 sc t, predC06 sc t,
-   predC07 sc t, predC08 sc t]
+   predC07 sc t, predC08 sc t, predC09 sc t]
 
 end NASim
